@@ -118,6 +118,13 @@ func emitTyped(cw *caseWriter, f, ty string, v interface{}) { emitTypedWith(cw, 
 // emitTypedWith: batchBack, when not empty, replaces the Exporter -> Importer result by the one obtained
 // when all the values of the pairing went through ONE exporter and ONE importer, every row being held
 // until the last line was read.
+type keptExporter struct {
+	w   *recWriter
+	exp jsonline.Exporter
+}
+
+var keptExporters = map[string]*keptExporter{}
+
 func emitTypedWith(cw *caseWriter, f, ty string, v interface{}, batchBack string) {
 	t := jsonline.NewTemplate().With("c", formatByName[f], tySample[ty])
 	ext := map[string]string{}
@@ -164,6 +171,37 @@ func emitTypedWith(cw *caseWriter, f, ty string, v interface{}, batchBack string
 	if batchBack != "" && strings.HasPrefix(back2, "ok") {
 		back2 = batchBack
 	}
+	// … and via ONE exporter per pairing, kept for every value of the run (values it legitimately refuses included):
+	// what it does for this value must be what a fresh exporter does
+	{
+		back3 := "-"
+		if p := guard(func() {
+			key := f + "(" + ty + ")"
+			se := keptExporters[key]
+			if se == nil {
+				se = &keptExporter{w: &recWriter{failAt: -1}}
+				se.exp = t.GetExporter(se.w)
+				keptExporters[key] = se
+			}
+			se.w.writes = nil
+			if err := se.exp.Export(map[string]interface{}{"c": v}); err != nil {
+				back3 = "err " + classifyLine(err)
+				return
+			}
+			row4, err := t.GetImporter(bytes.NewReader(se.w.all())).ReadOne()
+			if err != nil || row4 == nil {
+				back3 = "err " + classifyLine(err)
+				return
+			}
+			got, _ := row4.Get("c")
+			back3 = "ok " + dynStr(got)
+		}); p != "" {
+			back3 = "panic " + strings.ReplaceAll(p, "\t", " ")
+		}
+		if strings.HasPrefix(back2, "ok") && back3 != back2 {
+			back2 = back3
+		}
+	}
 	cw.count("pair:" + f + "(" + ty + ")")
 	s := dynStr(v)
 	cw.emit("typed "+f+" "+ty+" "+s, true, "typed", "C13", f, ty, s, extStr(ext), written, back1, back2)
@@ -175,7 +213,11 @@ func emitTypedWith(cw *caseWriter, f, ty string, v interface{}, batchBack string
 //	imp \t C10 \t <format> \t <ty> \t <Dyn v> \t <ext> \t <ok <Dyn raw> | err <class> | panic …>
 func emitImp(cw *caseWriter, f, ty string, v interface{}) { emitImpFor(cw, "C10", f, ty, v) }
 
-func emitImpFor(cw *caseWriter, prop, f, ty string, v interface{}) {
+func emitImpFor(cw *caseWriter, prop, f, ty string, v interface{}) { emitImpAfter(cw, prop, f, ty, nil, v) }
+
+// emitImpAfter: the same import into a cell (and row) that has just REJECTED something else (before, when not
+// nil): a refused value leaves the cell as it was — declared format and raw type included.
+func emitImpAfter(cw *caseWriter, prop, f, ty string, before []interface{}, v interface{}) {
 	t := jsonline.NewTemplate().With("c", formatByName[f], tySample[ty])
 	ext := map[string]string{}
 	extForValue(v, ext)
@@ -187,7 +229,34 @@ func emitImpFor(cw *caseWriter, prop, f, ty string, v interface{}) {
 	}
 	impl := "-"
 	pan := guard(func() {
+		if len(before) > 0 {
+			// a sibling row of the same template gets Values of OTHER declarations imported into the column first
+			guard(func() {
+				sib := t.CreateRowEmpty()
+				_ = sib.ImportAtKey("c", jsonline.NewValue("masked", jsonline.String, nil))
+				_ = sib.ImportAtKey("c", jsonline.NewValue(1.5, jsonline.Auto, float32(0)))
+				cl := jsonline.CloneRow(sib)
+				_ = cl.ImportAtKey("c", jsonline.NewValue(true, jsonline.Boolean, nil))
+				if cell, ok := sib.GetValue("c"); ok {
+					_ = cell.Import(jsonline.NewValue("x", jsonline.Hidden, ""))
+				}
+			})
+		}
 		row := t.CreateRowEmpty()
+		for i, b := range before {
+			switch i % 3 {
+			case 0:
+				_ = row.ImportAtKey("c", b)
+			case 1:
+				if cell, ok := row.GetValue("c"); ok {
+					_ = cell.Import(b)
+				}
+			default:
+				if js, err := json.Marshal(map[string]interface{}{"c": b}); err == nil {
+					_ = row.UnmarshalJSON(js)
+				}
+			}
+		}
 		if err := row.ImportAtKey("c", v); err != nil {
 			impl = "err " + classify(err)
 			return
@@ -374,6 +443,8 @@ func valueFor(r *rng, in, out colDesc) string {
 		return pick(r, []string{`"2021-09-24T21:21:00Z"`, `"2021-09-24T21:21:00+02:00"`, `"2021-09-24T21:21:00.5-03:30"`, `1632518460`, `0`, `"1632518460"`, `"2021-03-28T02:30:00+01:00"`, `null`})
 	case "string":
 		return pick(r, []string{`"a"`, `"12"`, `"true"`, `12`, `1.5`, `true`, `"2021-09-24T21:21:00Z"`, `"é😀"`, `""`, `null`, `"1"`,
+			// a literal backslash in front of text that looks like an escape (doubly encoded JSON, a Windows path)
+			`"\\u003c"`, `"a\\u0026b"`, `"C:\\users\\u003eco"`, `"\\n"`, `"<\\u003c>"`,
 			// texts that look like something else
 			`"0x10"`, `"1e5"`, `"Infinity"`, `"NaN"`, `"null"`, `" 12"`, `"+5"`, `"1_000"`, `"abcd"`, `"AQ=="`, `"2021-09-24"`, `"0xC0FFEE"`})
 	}
@@ -392,6 +463,33 @@ func emitTwice(cw *caseWriter, zone string, ti, to []colDesc, line []byte) {
 			extForJSON(out[:len(out)-1], ext)
 			w2, err2, pan2 := runLine(buildTemplate(to), buildTemplate(to), out[:len(out)-1])
 			second = lineOutcome(w2, err2, pan2)
+			// the second pass again, reading the emitted line into a row that has just held ANOTHER line with the same
+			// member names (every nested object given one more member): what the row held before leaves no trace
+			if strings.HasPrefix(second, "ok ") {
+				other := bytes.ReplaceAll(bytes.ReplaceAll(out[:len(out)-1], []byte(`:{`), []byte(`:{"zzextra":1,`)), []byte(`"zzextra":1,}`), []byte(`"zzextra":1}`))
+				if json.Valid(other) && !bytes.Equal(other, out[:len(out)-1]) {
+					w3 := &recWriter{failAt: -1}
+					var err3 error
+					okRead := false
+					pan3 := guard(func() {
+						t2 := buildTemplate(to)
+						row := t2.CreateRowEmpty()
+						if row.UnmarshalJSON(other) != nil {
+							return
+						}
+						okRead = true
+						if err3 = row.UnmarshalJSON(out[:len(out)-1]); err3 != nil {
+							return
+						}
+						err3 = t2.GetExporter(w3).Export(row)
+					})
+					if okRead || pan3 != "" {
+						if third := lineOutcome(w3, err3, pan3); third != second {
+							second = third
+						}
+					}
+				}
+			}
 		}
 	}
 	// attribution hint computed on the implementation: did the exporter's NewValue keep a raw value that
